@@ -46,6 +46,34 @@ CLAIMED = {
                   "DBMDict only within one open session (dbm.dumb backend). For sync() on a closed dictionary any exception "
                   "is accepted (the statement says 'raises'); the mapping operations must raise ValueError.",
              ref="3/C20"),
+ "C07": dict(cat="model_checking", tech="one-step induction (+ depth-3 BMC) by symbolic execution of the real schemes (CrossHair/z3) under ideal primitives",
+             text="Inputs-intact and search-purity are shown as one inductive step: deep snapshots of DB, configuration dict, every "
+                  "scheme's shared DEFAULT_CONFIG and the serialized key equal the originals after SSEScheme()/EDBSetup; for a "
+                  "solver-chosen keyword (stored or a symbolic absent one) EDB.serialize() and Token.serialize() are identical "
+                  "before and after Search and the answer is the single-search answer. Post-state == pre-state gives every "
+                  "finite history; depth-3 sequences cross-check it.",
+             note=_PIPE_NOTE, ref="3/C07"),
+ "C05": dict(cat="other", tech="bounded symbolic execution of the real EDBSetup (CrossHair/z3) with solver-enumerated length profiles",
+             text="The list-length profile is a vector of solver variables; for every feasible profile in the bounded family the "
+                  "shape of the real index (per container entry count and multiset of entry lengths) must equal the shape for the "
+                  "representative profile with the same public size parameter, and padded tables must have one key length and one "
+                  "value length. Lengths are what the ideal primitives preserve, so nothing is lost by the stubs here.",
+             note=_PIPE_NOTE + " Open finding C05-anss16-level-overflow is reported as KNOWN-FINDING.", ref="3/C05"),
+ "C15": dict(cat="other", engine="bvx", tech="SMT (z3, QF_UFBV) over an encoding generated from the source by the BVX AST-to-SMT interpreter; HMAC uninterpreted",
+             text="For each bit width the plaintext is a free bit-vector and the round function's HMAC is an uninterpreted function: "
+                  "decrypt(encrypt(x)) == x, encrypt(decrypt(y)) == y and length preservation are unsat-checked for ALL inputs, "
+                  "keys and round functions (two-sided inverse on a finite set = bijection). Luby-Rackoff byte PRPs: the inverse "
+                  "network over the same uninterpreted PRF recovers every message; wrong lengths are refused.",
+             note="Trusted: z3; the BVX interpreter (validated per obligation by running every call concretely through the "
+                  "interpreter and natively on random inputs; every sat model is replayed natively; thorough tier re-decides "
+                  "small widths with the /usr/bin/z3 4.8.12 binary). Bit-vector width W = max(2n, n+170)+16.", ref="3/C15"),
+ "C18": dict(cat="other", engine="bvx", tech="SMT (z3, QF_BV) over an encoding generated from the source of toolkit.bits by the BVX AST-to-SMT interpreter",
+             text="One query per (operation, length pair) with free operand values: each unsat answer covers all operand values of "
+                  "those lengths against an MSB-first list-of-bits reference written as bit-vector terms. Construction without a "
+                  "length is checked by running the real constructor on the stated finite family 2^k+d (k<=300) and all values "
+                  "< 2^10, because that is where a float logarithm could go wrong and no solver theory models it.",
+             note="Trusted: z3; the BVX interpreter (self-validated per obligation on random concrete inputs against native "
+                  "execution; sat models replayed natively); W = 2(la+lb)+24 bits.", ref="3/C18"),
 }
 
 NOT_APPLICABLE = {
@@ -89,7 +117,10 @@ def main():
                                       "--continue-on-collection-errors",
                   "source_commits": [], "add_only": True},
         "engines": [
-            {"name": "sx", "path": "vf/sx_worker.py", "serves_properties": sorted(CLAIMED),
+            {"name": "bvx", "path": "bvx/interp.py", "serves_properties": sorted(k for k, v in CLAIMED.items() if v.get("engine") == "bvx") + ["C17"],
+             "kind_free_text": "own AST-to-SMT symbolic interpreter (z3 bit-vectors + uninterpreted functions), fork by "
+                               "re-execution, per-obligation translator self-validation, native replay"},
+            {"name": "sx", "path": "vf/sx_worker.py", "serves_properties": sorted(k for k, v in CLAIMED.items() if v.get("engine", "sx") == "sx"),
              "kind_free_text": "symbolic execution of the repository's Python with CrossHair 0.0.110 / z3, own path loop "
                                "(exhaustion + multiple counterexamples), native replay of every counterexample"},
         ],
